@@ -105,6 +105,8 @@ def run_shard(shard):
         judge(acc, it, seen)
     for it in feed.tail_items(pt, rng, shard["labels"]):
         judge(acc, it, seen)
+    for it in feed.declared_type_items(pt, rng):
+        judge(acc, it, seen)
     for it in feed.immediate_items(pt, rng, shard["immediates"]):
         judge(acc, it, seen)
     for it in feed.router_items(pt, rng, shard["routers"]):
